@@ -487,6 +487,14 @@ def run_c30(ctx):
     for i in range(nsched):
         s, inits, ctrs, nxs = conc_schedule(i, ctx.rng, quick)
         scheds.append(s); meta.append((inits, ctrs, nxs))
+    for rp in json.load(open(os.path.join(VERIF, "findings", "redis_replays.json"))):
+        if "C30" in rp["properties"] and "conc_schedule" in rp:   # recorded run: same commands again (the interleaving is free)
+            s = dict(rp["conc_schedule"]); s["id"] = len(scheds)
+            ctrs = [c[1] for c in s["final"] if ":ctr" in c[1]]
+            inits = {k: None for k in ctrs}
+            inits.update({c[1]: c[2] for c in s["init"]})
+            scheds.append(s); meta.append((inits, ctrs, []))
+    nsched = len(scheds)
     evs = {}
     for part in run_driver(ctx, "conc", chunks(scheds, min(ctx.workers, 4))):
         for e in part:
@@ -505,12 +513,25 @@ def run_c30(ctx):
     nevents = sum(len(t) for t in traces)
     ctx.log("M3: %d concurrent runs / %d events validated, %d contradictions" % (len(traces), nevents, len(rejected)))
     reported = set()
+    known = {f["id"]: f for f in ctx.load_known()}
+    hits = {}
     for (ti, line, ev, want) in rejected:
         if want is not None and "?RANGE" in want:
             raise Undecided("run %d left the integer window of the model" % ti)
         if ti in reported:
             continue
         reported.add(ti)
+        # witness of the recorded engine-level finding: conflict detection is demonstrably active in this run
+        # (some command was refused with the transaction-conflict error), yet an update got lost
+        nconf = sum(1 for e in evs.get(ti, []) if e["c"] >= 0 and "conflict" in e["r"][0].lower() and e["r"][0].startswith("-"))
+        if nconf > 0 and "C30-oracle-race" in known and ev["e"] in ("Final", "NX"):
+            if "C30-oracle-race" not in hits:
+                ctx.known_finding("C30-oracle-race: %s (run %d: %s, expected %s; %d commands of the run were refused with the conflict error)"
+                                  % (known["C30-oracle-race"]["what"], ti, json.dumps(ev), want, nconf))
+            hits["C30-oracle-race"] = hits.get("C30-oracle-race", 0) + 1
+            ctx.save_replay("known-%d.json" % ti, {"schedule": scheds[ti], "event": ev, "expected": want,
+                                                   "replies": sorted(evs.get(ti, []), key=lambda e: (e["c"], e["i"]))})
+            continue
         if ev["e"] == "Final":
             acked = sum(1 for e in traces[ti] if e["e"] == "Incr" and e["ok"] and e["k"] == ev["k"])
             text = "counter %s: final GET %s but initial value + deltas of the %d successfully replied INCR-family commands = %s (lost or phantom update)" % (
@@ -560,7 +581,8 @@ def run_c30(ctx):
         "samples": [{"clients": len(scheds[0]["clients"]), "init": scheds[0]["init"], "client0_first": scheds[0]["clients"][0][:6], "events": traces[0][:10]}],
         "m1": {"embedded_detect": {"generated": m1.generated, "distinct": m1.distinct}, "without_detection_violates": off.violated,
                "raft_read_then_write_violates": raft.violated},
-        "events_validated": nevents, "reply_stats": stats, "contradictions": len(rejected), "negative_control": "rejected as required",
+        "events_validated": nevents, "reply_stats": stats, "contradictions": len(rejected), "known_finding_hits": hits,
+        "negative_control": "rejected as required",
         "checker_cmd": "tlc -config MC_RedisConc.cfg RedisConc.tla ; tlc -config RedisConcTrace.cfg RedisConcTrace.tla",
     }, assumptions=[
         "embedded backend only; free-running goroutine/TCP concurrency (interleavings are whatever the scheduler produces, not enumerated)",
